@@ -33,6 +33,9 @@ func init() {
 		rbufDelta := c.PI("rbufdelta", 0) // reader buffer = largest datagram + delta; -1 provokes short-buffer reads
 		method := methodOf(c.P("method", "plain"))
 		sendersPerStream := c.PI("senders", 1)
+		// closing=1: the sender closes its stream after the last datagram and the reader reads until the
+		// end-of-stream error - it must have got the datagrams that were written and nothing else
+		closing := c.P("closing", "0") == "1"
 		sc := &vrt.Scenario{
 			Opt:      vrt.Options{RandInt: chooseConnOpt(), Delay: c.P("delay", "0") == "1"},
 			Classify: deadlockIs("exactly-once: a datagram never arrived (reader blocked forever)"),
@@ -61,8 +64,14 @@ func init() {
 							var mine [][]byte
 							small := make([]byte, maxSize+rbufDelta)
 							big := make([]byte, maxSize+8)
-							for len(mine) < len(sizes)*sendersPerStream {
+							for closing || len(mine) < len(sizes)*sendersPerStream {
 								n, err := s.Read(small)
+								if closing && err != nil && !errors.Is(err, io.ErrShortBuffer) {
+									if n != 0 {
+										vrt.Fail("whole-datagrams", "the Read that reported the end of the stream (%v) also returned %d bytes", err, n)
+									}
+									break
+								}
 								if errors.Is(err, io.ErrShortBuffer) {
 									if n != 0 {
 										vrt.Fail("short-buffer-keeps-datagram", "short-buffer Read returned n=%d", n)
@@ -82,6 +91,9 @@ func init() {
 									vrt.Fail("no-error-on-healthy-session", "Read: %v", err)
 								}
 								mine = append(mine, append([]byte{}, small[:n]...))
+							}
+							if len(mine) == 0 {
+								vrt.Fail("exactly-once", "a stream ended without delivering any datagram")
 							}
 							idx := int(mine[0][0] >> 6)
 							if _, dup := got[idx]; dup {
@@ -108,6 +120,10 @@ func init() {
 								if err != nil || n != sz {
 									vrt.Fail("no-error-on-healthy-session", "Write(%d) = %d, %v", sz, n, err)
 								}
+							}
+							if closing {
+								quiesce() // unordered: the closing notice must not overtake the datagrams (that loss is legitimate)
+								s.Close()
 							}
 						})
 					}
@@ -301,6 +317,8 @@ func init() {
 			{Scenario: "mux.dgram", Params: vx.P("streams", "2", "sizes", "3,5", "delay", "1"), Bound: b(2, 3), Weight: 9},
 			{Scenario: "mux.dgram", Params: vx.P("streams", "1", "sizes", "4", "senders", "2"), Bound: b(2, 3), Weight: 7},
 			{Scenario: "mux.dgram", Params: vx.P("streams", "2", "sizes", "2", "conns", "1"), Bound: b(1, 2), Weight: 7},
+			{Scenario: "mux.dgram", Params: vx.P("streams", "1", "sizes", "3,5", "closing", "1"), Bound: b(2, 3), Weight: 6},
+			{Scenario: "mux.dgram", Params: vx.P("streams", "2", "sizes", "4", "closing", "1", "conns", "1"), Bound: b(1, 2), Weight: 6},
 			{Scenario: "mux.dgram", Params: vx.P("streams", "1", "sizes", "3,5", "conns", "3", "delay", "1"), Bound: b(2, 3), Weight: 7},
 		}
 		for _, m := range []string{"plain", "aes-256-gcm", "aes-128-gcm", "chacha20-poly1305"} {
